@@ -156,6 +156,39 @@ impl Prop for C02 {
         Val::L(l)
     }
 
+    /// thorough tier: EVERY byte string of length <= 4 over 16 marker / payload bytes as the merge file
+    /// (69 904 files; plain configuration, text "ab ab"): the reader model against the real loader
+    fn exhaustive(&mut self, _tier: Tier) -> Vec<Val> {
+        const A: &[u8] = &[0x00, 0x01, 0x61, 0x62, 0x80, 0x81, 0x82, 0x91, 0x92, 0xc4, 0xcc, 0xcd, 0xd0, 0xdc, 0xde, 0xff];
+        let mut files: Vec<Vec<u8>> = vec![vec![]];
+        let mut all: Vec<Vec<u8>> = vec![vec![]];
+        for _ in 0..4 {
+            let mut next = vec![];
+            for f in &files {
+                for b in A {
+                    let mut g = f.clone();
+                    g.push(*b);
+                    next.push(g);
+                }
+            }
+            all.extend(next.iter().cloned());
+            files = next;
+        }
+        all.iter()
+            .map(|f| {
+                Val::L(vec![
+                    Val::L(vec![]),
+                    Val::none(),
+                    Val::list(["<pad>"].iter(), |s| Val::str(s)),
+                    Val::L(vec![]),
+                    Val::L(vec![]),
+                    Val::str("ab ab"),
+                    Val::some(Val::bytes(f)),
+                ])
+            })
+            .collect()
+    }
+
     fn run(&mut self, input: &Val) -> Option<(Val, Vec<String>)> {
         let l = input.as_l()?;
         if l.len() != 6 && l.len() != 7 {
